@@ -102,6 +102,9 @@ def run_cases(ck: core.Check, cases: List[Dict[str, Any]], runner: str, tag: str
     core.write_json(cp, {"cases": [{k: v for k, v in c.items() if k != "desc"} for c in cases]})
     ck.impl(runner, [str(cp), str(op), str(procs)], timeout=timeout)
     o = core.read_json(op)
+    timed_out = [m for m in o["meta"] if (m.get("exc") or {}).get("exc_type") == "_Timeout"]
+    if timed_out:
+        raise core.MachineryFailure("%d run(s) exceeded the per-run time limit (machine overloaded?): case ids %s" % (len(timed_out), [m["id"] for m in timed_out][:5]))
     if len(o["traces"]) < len(cases):
         raise core.MachineryFailure("runner returned %d traces for %d cases" % (len(o["traces"]), len(cases)))
     return o["traces"], o["meta"], o["installed"]
@@ -198,12 +201,12 @@ def record_violations(ck: core.Check, viols: List[Dict[str, Any]], traces: List[
         case = cases_by_id[me["id"]]
         desc = case.get("desc", {})
         ev = tr["events"][v["l"] - 1] if 1 <= v["l"] <= len(tr["events"]) else {"e": "?", "p": "", "x": "?"}
-        if v["invariant"] == "Inv_TraceAccepted" and ev.get("x") == "exc":
+        if v["invariant"] in ("Inv_TraceAccepted", "Inv_FrontEndTraceAccepted") and ev.get("x") == "exc":
             exc = me.get("exc") or {}
             key = {"stage": exc.get("stage", ev["p"] or ev["e"]), "exc_type": exc.get("exc_type", "?"), "frame": exc.get("frame", "?")}
             clause = exception_clause
             detail = "%s at %s: %s | case=%s" % (exc.get("exc_type"), exc.get("site"), (exc.get("msg") or "")[:120], json.dumps(short_desc(desc), sort_keys=True)[:200])
-        elif v["invariant"] == "Inv_TraceAccepted":
+        elif v["invariant"] in ("Inv_TraceAccepted", "Inv_FrontEndTraceAccepted"):
             key = {"clause": "TraceIsPipelineBehaviour", "event": ev["e"], "phase": ev["p"], "tool": tr["tool"], "family": family_of(desc)}
             clause = "TraceIsPipelineBehaviour"
             detail = "trace rejected at event %d %s | case=%s" % (v["l"], json.dumps(ev), json.dumps(short_desc(desc), sort_keys=True)[:200])
